@@ -18,9 +18,9 @@ structure Build.Ok (b : Build) : Prop where
       `lzma_raw_coder_memusage` counts for filters without a memusage function -/
   bcj : b.szSimpleCoder + 32 + b.szSimpleX86 ≤ 1024
   /-- everything the single-threaded .xz decoder allocates besides the filter chain (lzma_internal, Stream coder,
-      Index hash, Block decoder, up to four option structs) plus the 4 KiB / 16-byte dictionary relaxation fits in
-      LZMA_MEMUSAGE_BASE -/
-  xzDec : b.szInternal + b.szStreamDecoder + b.szIndexHash + b.szBlockDecoder + 4 * b.optMax + 4096 ≤ MEMUSAGE_BASE
+      Index hash, Block decoder, up to four option structs) plus the 4 KiB / 16-byte dictionary relaxation (counted for
+      each of the at most four filters) fits in LZMA_MEMUSAGE_BASE -/
+  xzDec : b.szInternal + b.szStreamDecoder + b.szIndexHash + b.szBlockDecoder + 4 * b.optMax + 16384 ≤ MEMUSAGE_BASE
   /-- .lzma / .lz / auto decoders -/
   aloneDec : b.szInternal + b.szAutoDecoder + b.szAloneDecoder + b.szLzipDecoder + 4096 ≤ MEMUSAGE_BASE
   /-- Stream / .lzma encoders: coder structs, Index with its first group, Index encoder, option copies, the
